@@ -36,7 +36,7 @@ def showState (s : State) : String :=
     " b2[" ++ joinSep "," (s.bal2.map fun e => s!"{e.1}={e.2}") ++ s!"] s2={s.supply2}") ++
   -- the governance-controlled state: the tracked parameters, the DAO owner, the upgrade plan, the access-control list
   s!" gov[ms={s.p.minStake},mv={s.p.maxVals},ut={s.p.unstakingTime},w={s.p.window},mspw={s.p.minSignedRaw},jd={s.p.jailDur}," ++
-  s!"mea={s.p.maxAge},sfds={s.p.sfDouble},sfdt={s.p.sfDown},memo={s.p.maxMemo},tsl={s.p.txSigLimit},daoo={s.daoOwner},upg={s.upgrade.1}:{s.upgrade.2}]" ++
+  s!"mea={s.p.maxAge},sfds={s.p.sfDouble},sfdt={s.p.sfDown},memo={s.p.maxMemo},tsl={s.p.txSigLimit},fm={joinSep ";" (s.p.feeMults.map fun e => s!"{e.1}:{e.2}")}/{s.p.feeDefault},daoo={s.daoOwner},upg={s.upgrade.1}:{s.upgrade.2}]" ++
   " acl[" ++ joinSep "," (s.acl.map fun e => s!"{e.1}={e.2}") ++ "]" ++
   -- which of the key addresses have an account, and which of those accounts carry a public key
   " ac[" ++ joinSep "," ((s.accts.map (·.1)).filter fun a => s.keys.any (·.2 == a)) ++ "]" ++
